@@ -1,6 +1,6 @@
 #!/bin/sh
 # usage: tools/try_seed.sh <patch.diff> <PROP> [<PROP>...]   -- applies the patch to /repo, runs the checks, reverts
-P="$1"; shift
+P="$(realpath "$1")"; shift
 cd /repo || exit 2
 if ! git diff --quiet; then echo "repo has uncommitted changes"; exit 2; fi
 git apply "$P" || { echo "patch does not apply"; exit 2; }
